@@ -205,11 +205,16 @@ def jose_sign(plan, keymode: str = "key", form: str = "dict"):
     return jws.serialize_json([member(p, h) for p, h in hdrs], payload, keyarg, algorithms=ALL_JWS), hdrs
 
 
-def jose_verify(token, plan, keymode: str = "key", form: str = "dict", private: bool = False, give_payload: bool = True):
+def jose_verify(token, plan, keymode: str = "key", form: str = "dict", private: bool = False, give_payload: bool = True, via_rfc7797: bool = False):
     from joserfc import jws
     from joserfc import rfc7797
     keyarg = jose_keyarg(plan, keymode, private, form, "verify")
     payload = bytes.fromhex(plan["payload_hex"])
+    if via_rfc7797 and plan["b64"] is None:
+        # the RFC 7797 functions take tokens without the b64 member as well
+        if plan["ser"] == "compact":
+            return rfc7797.deserialize_compact(token, keyarg, algorithms=ALL_JWS)
+        return rfc7797.deserialize_json(token, keyarg, algorithms=ALL_JWS)
     if plan["ser"] == "compact":
         if plan["b64"] is None:
             return jws.deserialize_compact(token, keyarg, algorithms=ALL_JWS)
